@@ -148,6 +148,11 @@ def run(ctx):
         scs.append({"root": "root", "impl_only": True, "tree": {"a.txt": "1", "s/c.txt": "3", "e/": None},
                     "ops": [{"op": "create", "at": "s", "h": [f_], "now": "2026-03-01 12:00:00"}, {"op": "create", "at": "", "h": [f_], "now": "2026-03-01 12:00:01"},
                             {"op": "create", "at": "", "h": [f_], "now": "2026-03-01 12:00:02"}, {"op": "flatten", "at": ""}]})
+    # two (three) flatten runs into the same destination folder on the same day: the collection file lists them all
+    scs.append({"root": "root", "impl_only": True, "tree": {"a.txt": "1", "s/c.txt": "3"},
+                "ops": [{"op": "create", "at": "", "h": ["md5"], "now": "2026-03-01 12:00:00"}, {"op": "flatten", "at": "", "now": "2026-03-01 12:00:01"},
+                        {"op": "create", "at": "", "h": ["sha1"], "now": "2026-03-01 12:00:02"}, {"op": "flatten", "at": "", "same_dest": True, "now": "2026-03-01 12:00:03"},
+                        {"op": "flatten", "at": "", "same_dest": True, "now": "2026-03-01 12:00:04"}]})
     # a file recorded by several generations, then renamed (create -dr), then flattened - in the root and in a nested history
     for k in (1, 2, 3):
         ops = [{"op": "create", "at": "s", "h": ["md5"], "now": "2026-03-01 12:00:00"}]
@@ -247,6 +252,37 @@ def run(ctx):
             if not mo["valid"]:
                 corr.append({"what": "model: toXml of a well-formed generation is rejected by the model's validator", "replay": {"spec": spec}})
         drv.close()
+    # a history that holds a schema-valid manifest written by another tool - without the optional size attribute, without
+    # last-modification dates: what flatten and a later create write from it is valid
+    try:
+        import re as _re, glob as _glob
+        with rt.tempdir("c11f_") as d_:
+            r_ = os.path.join(d_, "root")
+            rt.mk(r_, {"a.txt": "alpha", "s/b.txt": "beta"})
+            rt.run("create", [r_, "-h", "md5"], "2026-03-01 12:00:00")
+            mp_ = _glob.glob(os.path.join(r_, "ascmhl", "*.mhl"))[0]
+            b_ = open(mp_, "rb").read()
+            b2_ = _re.sub(rb' size="\d+"', b"", b_)
+            b2_ = _re.sub(rb' lastmodificationdate="[^"]*"', b"", b2_)
+            ok_, err_ = lxml_valid(ms, b2_)
+            if ok_ and b2_ != b_:
+                open(mp_, "wb").write(b2_)
+                cp_ = os.path.join(r_, "ascmhl", "ascmhl_chain.xml")
+                c_ = open(cp_, "rb").read()
+                open(cp_, "wb").write(c_.replace(rt.c4_of_bytes(b_).encode(), rt.c4_of_bytes(b2_).encode()))
+                dest_ = os.path.join(d_, "dest")
+                os.makedirs(dest_)
+                x1 = rt.run("flatten", [r_, dest_], "2026-03-01 12:00:05")
+                x2 = rt.run("create", [r_, "-h", "sha1"], "2026-03-01 12:00:06")
+                evals += 2
+                for fp_ in _glob.glob(os.path.join(dest_, "*", "*.mhl")) + sorted(_glob.glob(os.path.join(r_, "ascmhl", "0002_*.mhl"))):
+                    ok2_, err2_ = lxml_valid(ms, open(fp_, "rb").read())
+                    if not ok2_:
+                        fails.append({"what": f"{os.path.basename(fp_)} written from a history whose first manifest has no size attributes (a valid manifest of another tool) is not valid against the manifest schema: {err2_}", "replay": {"case": "foreign manifest without size"}})
+                if x1.exit != 0 or x2.exit != 0:
+                    fails.append({"what": f"flatten / create on a history whose first manifest has no size attributes exit {x1.exit} / {x2.exit}", "replay": {"case": "foreign manifest without size"}})
+    except Exception as e:
+        corr.append({"what": f"foreign-manifest case stopped: {e!r}", "replay": {"case": "foreign manifest without size"}})
     # runs that end with an error half way through their writes (disk full, Ctrl-C): every manifest and chain file that
     # is then present under its final name is still a valid document
     try:
